@@ -182,6 +182,7 @@ func H10_race_replay() {
 // and replayed under the Go race detector with the same inputs.
 func H10_hb() {
 	e := h01New("xterm-256color", 3, 1, false)
+	e.tty.scrMu = &e.t.Mutex
 	fill := []int{0, 10}[vsymChoice("fill", 2)]
 	for i := 0; i < fill; i++ {
 		_ = e.s.PostEvent(NewEventInterrupt(nil))
@@ -228,4 +229,5 @@ func H10_hb() {
 	}
 	e.s.Fini()
 	vsymAssert(e.t.fini && !e.tty.running, "the scenario ran to its end (Fini returned, the tty is stopped)")
+	vsymAssert(e.tty.unlockedWrites == 0, "every write to the terminal after Init is made with the screen lock held (output of concurrent calls cannot interleave with a frame)")
 }
